@@ -182,9 +182,12 @@ func runC06(c *core.Ctx) {
 				m.Offline, m.Flags = nil, m.Flags&6
 				signer := key
 				if off {
-					o, tk := offlineFor(r, key, []int{7, 11}[i%2])
+					// every transient type the library can sign with (Ed25519, RedDSA, DSA-SHA1)
+					tt := []int{7, 11, 0}[i%3]
+					o, tk := offlineFor(r, key, tt)
 					m.Offline, signer = &o, tk
 					m.Flags |= 1
+					sh["transient"] = tt
 				}
 				sh["offline"] = off
 				if len(m.Leases) == 0 {
